@@ -47,7 +47,13 @@ func LRHuntGen() *rapid.Generator[*Grammar] {
 			return &Expr{K: KClass, Inv: true} // [^] : any rune
 		}
 		nullableThing := func() *Expr {
-			switch U(t, 9, "nullkind") {
+			switch U(t, 12, "nullkind") {
+			case 9:
+				return Not(Not(term()))
+			case 10:
+				return Not(And(term()))
+			case 11:
+				return And(Not(&Expr{K: KAndCode, ID: nextID()}))
 			case 0:
 				return Lit("")
 			case 1:
